@@ -666,6 +666,10 @@ func (pa *PanicAudit) indexNeeds(x, idx ssa.Value) (string, []pNeed) {
 		if k, ok := constInt(idx); ok && k < at.Len() {
 			return "", nil
 		}
+		// the index of a range over this very array value
+		if rangeIndexOf(idx) {
+			return "", nil
+		}
 	}
 	if _, isMap := t.(*types.Map); isMap {
 		return "", nil
